@@ -227,6 +227,12 @@ impl TopicActor {
                     .iter()
                     .map(|m| [m.value >> 32, m.value & 0xffff_ffff])
                     .collect::<Vec<_>>(),
+                // the ids as clients see them (first ones only under light recording)
+                "wire": message_ids
+                    .iter()
+                    .take(if crate::verif::light() { 3 } else { usize::MAX })
+                    .map(|m| m.to_string())
+                    .collect::<Vec<_>>(),
                 "fan": fan,
                 "deleted": self.deleted,
             })
